@@ -69,7 +69,7 @@ fn dispatch(op: &str, e: &Value, ctx: &mut Ctx) -> Result<Value, String> {
         "fe" => ops_field::run(op, e, ctx),
         "sc" => ops_scalar::run(op, e, ctx),
         "ed" => ops_edwards::run(op, e, ctx),
-        "vec" | "const" => ops_vec::run(op, e, ctx),
+        "vec" | "const" | "chk" => ops_vec::run(op, e, ctx),
         "tot" | "serde" | "ff" | "grp" => ops_more::run(op, e, ctx),
         "mem" => ops_mem::run(op, e, ctx),
         _ => ops_misc::run(op, e, ctx),
